@@ -89,7 +89,7 @@ func (net *Net) CheckSafety(s *Shadow) string {
 			// that height (reference tally, not VerifyCommit)
 			if prevID, ok := s.Decided[h-1]; ok && h-1 >= net.Cfg.InitialHeight {
 				if pv, err := s.Store.LoadValidators(h - 1); err == nil {
-					if err := lib.RefCommitCheck(net.Cfg.ChainID, pv, prevID, h-1, block.LastCommit); err != nil {
+					if err := lib.RefCommitCheckStrict(net.Cfg.ChainID, pv, prevID, h-1, block.LastCommit); err != nil {
 						return fmt.Sprintf("node %d decided block %d whose LastCommit does not justify block %d: %v", k, h, h-1, err)
 					}
 				}
